@@ -305,10 +305,16 @@ def user_data_experiments(ctx, env, state, action, label, payload, rng, unpickla
     carriers = [o for o in _carriers(state) if type(o).__name__ not in ('NoneGridObject',)]
     if not carriers:
         return
-    for o in rng.sample(carriers, min(len(carriers), 4)):
-        o.heat = np.arange(4096 if rng.random() < 0.5 else 5, dtype=float)  # large and small buffers
-    if unpicklable:
-        rng.choice(carriers).note = lambda: 0
+    try:
+        for o in rng.sample(carriers, min(len(carriers), 4)):
+            o.heat = np.arange(4096 if rng.random() < 0.5 else 5, dtype=float)  # large and small buffers
+        if unpicklable:
+            rng.choice(carriers).note = lambda: 0
+    except AttributeError:  # objects that do not take extra attributes (__slots__): nothing to attach, nothing to check
+        ctx.hit('userdata.not_attachable')
+        ctx.hit('userdata.unpicklable' if unpicklable else 'userdata.arrays')
+        ctx.hit('userdata.step_answered')
+        return
     pre, pre_arr = enc.es(state), _arrays(state)
     env.set_seed(7)
     ok, res = call_real(env.functional_step, state, action)
